@@ -710,7 +710,12 @@ class Interp(object):
             cut = self.cuts.get((frame.func, target.id, k))
             if cut is not None:
                 goal = cut(self, frame)
+                repl = None
+                if isinstance(goal, tuple):           # (goal: var == expr, expr): continue with the simpler term
+                    goal, repl = goal
                 self.check_then_assume("%s/cut/%s#%d" % (frame.func, target.id, k), goal)
+                if repl is not None:
+                    frame.locals[target.id] = repl
         elif isinstance(target, (ast.Tuple, ast.List)):
             vals = self.iterate(v)
             if len(vals) != len(target.elts):
